@@ -30,6 +30,7 @@ package main
 
 import (
 	"fmt"
+	"os"
 	"sort"
 	"strconv"
 	"strings"
@@ -37,17 +38,35 @@ import (
 	"sync/atomic"
 	"time"
 
+	"github.com/krotik/ecal/engine"
 	"github.com/krotik/ecal/engine/pool"
 	"github.com/krotik/ecal/verifhook"
 )
 
 type c09Task struct {
-	id int
-	c  *c09Case
+	id       int
+	c        *c09Case
+	children int // tasks this task adds from inside Run (the engine's normal mode)
+	waitFor  int // id of a task that must have STARTED before this one returns (-1: none)
 }
 
 func (t *c09Task) Run(tid uint64) error {
 	atomic.AddInt32(&t.c.count[t.id], 1)
+	atomic.StoreInt32(&t.c.started[t.id], 1)
+	for k := 0; k < t.children; k++ {
+		t.c.add()
+	}
+	if t.waitFor >= 0 {
+		// dependent task: another worker has to start the other task while this one is running
+		t0 := time.Now()
+		for atomic.LoadInt32(&t.c.started[t.waitFor]) == 0 {
+			if time.Since(t0) > 1500*time.Millisecond {
+				atomic.StoreInt32(&t.c.depTimeout, 1)
+				break
+			}
+			time.Sleep(50 * time.Microsecond)
+		}
+	}
 	if t.c.spin > 0 {
 		x := 0
 		for k := 0; k < t.c.spin; k++ {
@@ -68,6 +87,11 @@ type c09Case struct {
 	s      *c09Sched
 	tp     *pool.ThreadPool
 	count  [c09MaxTasks]int32
+	started [c09MaxTasks]int32
+	depTimeout int32
+	win    string // directed schedules: was the intended window hit (1/0), na otherwise
+	rsMid  bool   // a mid-case worker count check failed
+	rsAlt  []int  // concurrent resizers: acceptable final counts
 	end    [c09MaxTasks]int64
 	clock  int64
 	done   int32
@@ -79,25 +103,32 @@ type c09Case struct {
 	wa, ja string
 	joined bool
 	lastSet int
+	extAdded, extDone int // processor family: task counts known from the rule firings
 }
 
 func newC09Case() *c09Case {
-	c := &c09Case{s: newC09Sched(), wa: "na", ja: "na", lastSet: -1}
+	c := &c09Case{s: newC09Sched(), wa: "na", ja: "na", lastSet: -1, win: "na"}
 	c.tp = pool.NewThreadPool()
 	c.s.Adopt()
 	verifhook.SetHandler(c.s.handle)
 	return c
 }
 
-func (c *c09Case) add() {
+func (c *c09Case) newID() int {
 	c.mu.Lock()
 	id := c.next
 	c.next++
 	c.mu.Unlock()
+	return id
+}
+
+func (c *c09Case) add() { c.addTask(c.newID(), 0, -1) }
+
+func (c *c09Case) addTask(id, children, waitFor int) {
 	if id >= c09MaxTasks {
 		return
 	}
-	c.tp.AddTask(&c09Task{id, c})
+	c.tp.AddTask(&c09Task{id, c, children, waitFor})
 	c.mu.Lock()
 	c.added = append(c.added, id)
 	c.mu.Unlock()
@@ -114,7 +145,10 @@ func (c *c09Case) setWorkers(k int, wait bool) {
 	if wait {
 		w = 1
 	}
+	c.mu.Lock()
 	c.lastSet = k
+	c.joined = false
+	c.mu.Unlock()
 	c.s.Note(fmt.Sprintf("SC.%d.%d", k, w))
 	c.tp.SetWorkerCount(k, wait)
 	c.s.Note("SR")
@@ -149,8 +183,11 @@ func (c *c09Case) joinAll() {
 	c.s.Note("JR")
 	c.joined = true
 	c.ja = "ok"
-	st := c.tp.State()
-	if st["TaskQueueSize"].(int) != 0 || len(st["TotalWorkerThreads"].([]uint64)) != 0 {
+	// the snapshot JoinAll left its loop with (tasks may be added concurrently with the return)
+	c.s.mu.Lock()
+	js := c.s.lastWS[c.s.labels[c09Goid()]]
+	c.s.mu.Unlock()
+	if js[0] != 0 || js[2] != 0 {
 		c.ja = "bad"
 	}
 	for _, id := range before {
@@ -224,6 +261,9 @@ func (c *c09Case) finish() string {
 			bad = append(bad, fmt.Sprintf("t%dx%d", id, n))
 		}
 	}
+	if atomic.LoadInt32(&c.depTimeout) != 0 {
+		bad = append(bad, "dep-timeout") // a queued task was not started while the task waiting for it ran
+	}
 	exec := "ok"
 	if len(bad) > 0 {
 		exec = "bad:" + strings.Join(bad, ",")
@@ -234,9 +274,28 @@ func (c *c09Case) finish() string {
 		if w != c.lastSet {
 			rs = "bad"
 		}
+		if len(c.rsAlt) > 0 {
+			// concurrent resizers: the one deciding last wins; the model knows which (sr records)
+			rs = "bad"
+			for _, k := range c.rsAlt {
+				if w == k {
+					rs = "na"
+				}
+			}
+		}
 	}
-	res := fmt.Sprintf("added=%d done=%d q=%d w=%d i=%d stuck=%s exec=%s wa=%s ja=%s rs=%s | %s",
-		len(added), atomic.LoadInt32(&c.done), q, w, idle, stuck, exec, c.wa, c.ja, rs, trace)
+	if c.rsMid {
+		rs = "bad"
+	}
+	nAdded, nDone := len(added), int(atomic.LoadInt32(&c.done))
+	if c.extAdded > 0 {
+		nAdded, nDone = c.extAdded, c.extDone
+		if stuck == "0" && nAdded != nDone {
+			exec = "bad:processor-tasks"
+		}
+	}
+	res := fmt.Sprintf("added=%d done=%d q=%d w=%d i=%d stuck=%s exec=%s wa=%s ja=%s rs=%s win=%s | %s",
+		nAdded, nDone, q, w, idle, stuck, exec, c.wa, c.ja, rs, c.win, trace)
 	// cleanup (not recorded)
 	if stuck == "0" && w > 0 {
 		d := make(chan struct{})
@@ -254,7 +313,8 @@ func (c *c09Case) finish() string {
 
 var c09Directed = []string{"lostwakeup-empty", "lostwakeup-locked", "lostwakeup-checked", "kill-vs-wait",
 	"kill-vs-wait-empty", "resize-up-burst", "resize-down-burst", "joinall-burst", "waitall-running", "plain",
-	"resize-overkill", "resize-undershoot", "resize-spin"}
+	"resize-overkill", "resize-undershoot", "resize-spin", "joinall-vs-resize", "joinall-vs-add", "zero-and-back",
+	"dependent", "nested-add"}
 
 // cycleAndPark makes every worker go once through its loop and parks them at `point`
 // (workers that reach it), returns the rule. The workers are woken by adding and
@@ -299,6 +359,11 @@ func c09RunDirected(name string, W int) string {
 		select {
 		case <-d: // AddTask ran to completion (no lock needed / lock free)
 		case <-time.After(5 * time.Millisecond): // AddTask blocks on L held by the parked worker
+		}
+		// the intended window: the push of the extra task was recorded while the worker(s) sat at the point
+		c.win = "0"
+		if s.WaitRecord(fmt.Sprintf("ap.t%d.", W), 200*time.Millisecond) && int(atomic.LoadInt32(&r.parked)) >= n {
+			c.win = "1"
 		}
 		s.Release(r)
 		<-d
@@ -372,6 +437,53 @@ func c09RunDirected(name string, W int) string {
 		time.Sleep(time.Millisecond)
 		s.Release(r)
 		<-d
+	case "joinall-vs-resize":
+		// SetWorkerCount while a JoinAll is being carried out: the worker has found the queue empty on the
+		// exit-when-drained path (held at pool.get.empty) when the pool is resized to W+1; W+1 workers must
+		// result (the worker is still counted on). Afterwards the pool is emptied so that JoinAll returns.
+		c.setWorkers(W, false)
+		c.quiesce()
+		r := s.AddRule("w*", "pool.get.empty", W)
+		jd := make(chan struct{})
+		go func() { s.Adopt(); c.joinAll(); close(jd) }()
+		c.win = "0"
+		if r.WaitParked(W, 500*time.Millisecond) {
+			c.win = "1"
+		}
+		c.setWorkers(W+1, false)
+		s.Release(r)
+		c.quiesce()
+		if n := len(c.tp.State()["TotalWorkerThreads"].([]uint64)); n != W+1 {
+			c.rsMid = true
+		}
+		c.setWorkers(0, true)
+		<-jd
+		c.joined = false
+	case "joinall-vs-add":
+		// tasks arrive while JoinAll is being carried out
+		c.setWorkers(W, false)
+		c.quiesce()
+		c.joinWithAdds(6)
+	case "zero-and-back":
+		// SetWorkerCount(0) with a backlog and back
+		c.setWorkers(W, false)
+		for k := 0; k < 3; k++ {
+			c.add()
+		}
+		c.setWorkers(0, true)
+		for k := 0; k < 4; k++ {
+			c.add()
+		}
+		c.quiesce()
+		c.setWorkers(W, false)
+	case "dependent":
+		// a running task waits for the start of a task queued behind it: another worker has to be woken
+		c.setWorkers(W+1, false)
+		c.quiesce()
+		c.addDependent(2)
+	case "nested-add":
+		c.setWorkers(W, false)
+		c.addTask(c.newID(), 4, -1)
 	case "joinall-burst":
 		c.setWorkers(W, false)
 		for k := 0; k < 10; k++ {
@@ -398,6 +510,55 @@ func c09RunDirected(name string, W int) string {
 }
 
 // ---------------------------------------------------------------- programs (random / systematic)
+
+// addDependent adds `extra` ordinary tasks, then a task that waits for the START of the task added
+// right after it.
+func (c *c09Case) addDependent(extra int) {
+	for k := 0; k < extra; k++ {
+		c.add()
+	}
+	a, b := c.newID(), c.newID()
+	c.addTask(a, 0, b)
+	c.addTask(b, 0, -1)
+}
+
+// joinWithAdds calls JoinAll while a background goroutine adds n tasks. Tasks that arrive after the
+// last worker left stay queued (a pool without workers: outside the property); the pool is then
+// restarted with one worker and emptied so that JoinAll can return.
+func (c *c09Case) joinWithAdds(n int) {
+	jd := make(chan struct{})
+	ad := make(chan struct{})
+	go func() {
+		c.s.Adopt()
+		for k := 0; k < n; k++ {
+			c.add()
+		}
+		close(ad)
+	}()
+	go func() { c.s.Adopt(); c.joinAll(); close(jd) }()
+	<-ad
+	select {
+	case <-jd:
+	case <-time.After(30 * time.Millisecond):
+		c.quiesce()
+		select {
+		case <-jd:
+		default:
+			c.setWorkers(1, false)
+			c.quiesce()
+			c.setWorkers(0, true)
+			<-jd
+		}
+	}
+	if c.tp.State()["TaskQueueSize"].(int) > 0 {
+		// tasks that arrived after the last worker had left: restart the pool to run them
+		c.setWorkers(1, false)
+		c.quiesce()
+		c.setWorkers(0, true)
+	}
+	c.lastSet = -1
+	c.joined = true
+}
 
 func (c *c09Case) runProg(prog string) {
 	for _, op := range strings.Split(prog, ";") {
@@ -440,6 +601,27 @@ func (c *c09Case) runProg(prog string) {
 		case 'j':
 			c.bg.Wait()
 			c.joinAll()
+		case 'J':
+			c.bg.Wait()
+			c.joinWithAdds(n)
+		case 'n':
+			c.addTask(c.newID(), n, -1)
+		case 'd':
+			c.addDependent(n)
+		case 'X':
+			var a, b int
+			fmt.Sscanf(op[1:], "%d.%d", &a, &b)
+			var wg sync.WaitGroup
+			for _, k := range []int{a, b} {
+				k := k
+				wg.Add(1)
+				go func() { defer wg.Done(); c.s.Adopt(); c.setWorkers(k, false) }()
+			}
+			wg.Wait()
+			c.rsAlt = []int{a, b}
+		}
+		if op[0] != 'X' && (op[0] == 'u' || op[0] == 'U') {
+			c.rsAlt = nil
 		}
 	}
 }
@@ -451,6 +633,51 @@ func c09RunRandom(seed uint64, W int, prog string) string {
 	c.spin = int(seed % 3 * 200)
 	c.setWorkers(W, false)
 	c.runProg(prog)
+	return c.finish()
+}
+
+// c09RunProcessor: the pool inside a real engine.Processor (engine.TaskQueue: priority / random
+// pick instead of FIFO; tasks add tasks from inside Run through rule actions that inject child events;
+// AddEventAndWait has no polling loop that would repair a lost wake-up).
+func c09RunProcessor(seed uint64, W, n int) string {
+	c := newC09Case()
+	c.s.random = true
+	c.s.rnd = NewRand(seed)
+	proc := engine.NewProcessor(W)
+	proc.ThreadPool().TooManyCallback = func() {}
+	c.tp = proc.ThreadPool()
+	var fired int64
+	check(proc.AddRule(&engine.Rule{Name: "parent", KindMatch: []string{"a"}, ScopeMatch: []string{},
+		Action: func(p engine.Processor, m engine.Monitor, e *engine.Event, tid uint64) error {
+			atomic.AddInt64(&fired, 1)
+			_, err := p.AddEvent(engine.NewEvent("child", []string{"b"}, nil), m.NewChildMonitor(int(seed%3)))
+			return err
+		}}))
+	check(proc.AddRule(&engine.Rule{Name: "child", KindMatch: []string{"b"}, ScopeMatch: []string{},
+		Action: func(p engine.Processor, m engine.Monitor, e *engine.Event, tid uint64) error {
+			atomic.AddInt64(&fired, 1)
+			return nil
+		}}))
+	c.s.Note(fmt.Sprintf("SC.%d.0", W))
+	proc.Start()
+	c.s.Note("SR")
+	c.lastSet = W
+	r := NewRand(seed + 1)
+	for k := 0; k < n; k++ {
+		ev := engine.NewEvent("parent", []string{"a"}, nil)
+		if r.Intn(2) == 0 {
+			if _, err := proc.AddEventAndWait(ev, nil); err != nil {
+				return "processor-error " + oneLine(err.Error())
+			}
+		} else if _, err := proc.AddEvent(ev, nil); err != nil {
+			return "processor-error " + oneLine(err.Error())
+		}
+		if r.Intn(3) == 0 {
+			c.quiesce()
+		}
+	}
+	c.quiesce()
+	c.extAdded, c.extDone = 2*n, int(atomic.LoadInt64(&fired))
 	return c.finish()
 }
 
@@ -483,6 +710,14 @@ func c09Run(payload string) string {
 		seed, _ := strconv.ParseUint(f[1], 10, 64)
 		w, _ := strconv.Atoi(f[2])
 		return c09RunRandom(seed, w, f[3])
+	case "P":
+		if len(f) < 4 {
+			return "bad-payload"
+		}
+		seed, _ := strconv.ParseUint(f[1], 10, 64)
+		w, _ := strconv.Atoi(f[2])
+		n, _ := strconv.Atoi(f[3])
+		return c09RunProcessor(seed, w, n)
 	case "S":
 		if len(f) < 5 {
 			return "bad-payload"
@@ -501,7 +736,26 @@ func c09GenProg(r *Rand, W int, g *Gen) string {
 	n := 1 + r.Intn(6)
 	cur := W
 	for k := 0; k < n; k++ {
-		switch x := r.Intn(10); {
+		switch x := r.Intn(13); {
+		case x == 10:
+			ops = append(ops, "n"+strconv.Itoa(1+r.Intn(4)))
+			g.Count("op.nested-add")
+		case x == 11:
+			if cur >= 2 {
+				// a dependent pair needs a second worker for as long as it runs: settle before and after
+				ops = append(ops, "q", "d"+strconv.Itoa(r.Intn(4)), "q")
+				g.Count("op.dependent")
+			} else {
+				ops = append(ops, "a1")
+			}
+		case x == 12:
+			a, b := 1+r.Intn(6), 1+r.Intn(6)
+			ops = append(ops, fmt.Sprintf("X%d.%d", a, b))
+			cur = a
+			if b < a {
+				cur = b
+			}
+			g.Count("op.concurrent-resize")
 		case x < 3:
 			ops = append(ops, "a"+strconv.Itoa(1+r.Intn(3)))
 			g.Count("op.add")
@@ -518,6 +772,10 @@ func c09GenProg(r *Rand, W int, g *Gen) string {
 			k := 1 + r.Intn(16)
 			if r.Intn(3) == 0 {
 				k = 1 + r.Intn(3)
+			}
+			if r.Intn(8) == 0 {
+				k = 0 // no workers: tasks stay queued until the pool is resized again
+				g.Count("op.resize-zero")
 			}
 			wait := r.Intn(3) == 0
 			if wait {
@@ -539,9 +797,17 @@ func c09GenProg(r *Rand, W int, g *Gen) string {
 			g.Count("op.quiesce")
 		}
 	}
-	if r.Intn(4) == 0 {
-		ops = append(ops, "j")
-		g.Count("op.joinall")
+	if x := r.Intn(8); x < 3 {
+		if cur == 0 {
+			ops = append(ops, "u"+strconv.Itoa(1+r.Intn(3))) // JoinAll on a pool without workers never returns
+		}
+		if x == 0 {
+			ops = append(ops, "J"+strconv.Itoa(1+r.Intn(8)))
+			g.Count("op.joinall-with-adds")
+		} else {
+			ops = append(ops, "j")
+			g.Count("op.joinall")
+		}
 	}
 	return strings.Join(ops, ";")
 }
@@ -556,6 +822,9 @@ func c09Gen(g *Gen) {
 	nr := 360
 	if g.Thorough() {
 		nr = 6000
+	}
+	if a, _ := strconv.Atoi(os.Getenv("C09_AMPLIFY")); a > 1 {
+		nr *= a // a skeleton fact could not be established from the source: search more
 	}
 	for k := 0; k < nr; k++ {
 		W := 1 + g.R.Intn(3)
@@ -573,6 +842,14 @@ func c09Gen(g *Gen) {
 		default:
 			g.Count("workers.5-16")
 		}
+	}
+	np := 24
+	if g.Thorough() {
+		np = 400
+	}
+	for k := 0; k < np; k++ {
+		g.Emit(fmt.Sprintf("P %d %d %d", g.R.U64()%1000000007, 1+g.R.Intn(4), 1+g.R.Intn(6)))
+		g.Count("kind.processor")
 	}
 	if g.Thorough() {
 		// delay-bounded systematic exploration of tiny configurations
@@ -595,5 +872,5 @@ func c09Gen(g *Gen) {
 }
 
 func init() {
-	register("C09", &Prop{Gen: c09Gen, Run: c09Run, Timeout: 20 * time.Second})
+	register("C09", &Prop{Gen: c09Gen, Run: c09Run, Timeout: 20 * time.Second, Tool: c09Tool})
 }
